@@ -92,7 +92,21 @@ def assemble(unit_name, unit, tolerant=False):
             for o in piece.get("hoist", []):
                 args += ["--hoist", o]
             txt = run_vx(args, log_path)
-            for a, b in piece.get("subst", []):
+            subst = list(piece.get("subst", []))
+            if tolerant and subst and os.path.exists(log_path):
+                # site-specific substitutions are keyed on code text: follow the renamings of locals the extractor reported
+                ren = {}
+                for line in open(log_path):
+                    p = line.rstrip("\n").split("\t")
+                    if p[0] == "DEGRADED" and len(p) >= 5 and p[3] == "renamed-locals":
+                        for pair in p[4].split(" ambiguous=")[0].split(","):
+                            if "->" in pair:
+                                o, n = pair.split("->", 1); ren[o] = n
+                if ren:
+                    def rn(t):
+                        return re.sub(r"(?<![A-Za-z0-9_])(%s)(?![A-Za-z0-9_])" % "|".join(re.escape(k) for k in ren), lambda m: ren[m.group(1)], t)
+                    subst = [(rn(a), rn(b)) for a, b in subst]
+            for a, b in subst:
                 txt = txt.replace(a, b)
             hdr = piece.get("header")
             if hdr:
